@@ -136,10 +136,15 @@ fn run_job(job: &Value) -> Value {
             opts = opts.allows_charset(b);
         }
         if let Some(Value::Array(lps)) = o.get("load_paths") {
-            for lp in lps {
-                if let Some(s) = lp.as_str() {
+            let paths: Vec<&str> = lps.iter().filter_map(Value::as_str).collect();
+            // both public spellings are exercised: `load_paths` (one call, what the CLI uses)
+            // unless the job asks for one `load_path` call per entry
+            if o.get("load_paths_api").and_then(Value::as_str) == Some("singular") {
+                for s in &paths {
                     opts = opts.load_path(s);
                 }
+            } else if !paths.is_empty() {
+                opts = opts.load_paths(&paths);
             }
         }
         let input = job.get("input").map(bytes_of);
